@@ -32,12 +32,15 @@ func init() {
 
 	checks["C01"] = func(c *Ctx) {
 		mixed := baseCfg("Scan_Mixed", "Mixed")
-		mixed.NTree, mixed.MaxEnt, mixed.NCommit, mixed.NTag = 2, 1, 2, 1
+		mixed.NTree, mixed.MaxEnt, mixed.NCommit, mixed.NTag = 2, 1, 2, 0
 		mixed.EntKinds = []string{"file", "sub", "tree"}
+		tagged := mixed
+		tagged.Name = "Scan_Mixed_tagged"
+		tagged.NCommit, tagged.NTag, tagged.EntKinds = 1, 1, []string{"file", "tree"}
 		mixed.BlobSizes, mixed.NameLens = "Seq_3_5", "Seq_1_2"
 		mixed.Styles = []string{"full"}
 		p := scanProfile{
-			Check: []scanCfg{mixed}, Export: []scanCfg{mixed}, MaxAPI: 4000, MaxCLIFromTLC: 60,
+			Check: []scanCfg{mixed, tagged}, Export: []scanCfg{mixed, tagged}, MaxAPI: 4000, MaxCLIFromTLC: 60,
 			NRandom: 60, MaxTraces: 60,
 			Gen:   genParams{NBlob: 12, NTree: 14, NCommit: 12, NTag: 5, MaxEnt: 4, MaxBlob: 300, Merges: true, RootKinds: "mixed"},
 			Fails: scanFails["C01"],
@@ -46,7 +49,7 @@ func init() {
 		if !quick(c) {
 			big := mixed
 			big.Name = "Scan_Mixed_big"
-			big.NTree, big.MaxEnt, big.NCommit, big.NTag = 2, 2, 3, 2
+			big.NTree, big.MaxEnt, big.NCommit, big.NTag = 2, 1, 2, 1
 			p.Check = append(p.Check, big)
 			p.MaxAPI, p.MaxCLIFromTLC, p.NRandom, p.MaxTraces = 40000, 300, 1000, 400
 		}
